@@ -9,6 +9,7 @@ Only theorems and examples.
 -/
 import VaxisModel.Lemmas.KittyTerm
 import VaxisModel.Lemmas.KittyData
+import VaxisModel.Lemmas.KittyStrict
 import VaxisModel.Model.ImageTerm
 import VaxisModel.Model.ImageDraw
 
@@ -191,6 +192,44 @@ theorem retransmission_drops_kept_placements :
     ((World.trace World.init ops).foldl Term.applyDrop Term.empty).places (key a1) = none ∧
     ((World.trace World.init ops).foldl Term.applyDrop Term.empty).places (key a3) = some a3 := by
   refine ⟨by decide, by decide, by decide, by decide⟩
+
+open VaxisModel.Lemmas.KittyStrict in
+/-- **The refinement holds on the strict terminal too** (kitty's own behaviour: retransmitting an image drops its
+    placements), for ALL histories in which every frame is key-functional and no placement is kept across a frame while
+    its image has new data waiting (`StrictFrames`: at each render, every placement of the frame that was in the last
+    one belongs to an image whose `uploaded` flag is set — true whenever a `Resize` changes the image's cell size, since
+    all its placements then differ): the emitted command sequence, folded in order on the strict terminal, leaves
+    exactly the table of the last rendered frame — and the same terminal as the lenient model.
+    `retransmission_drops_kept_placements` shows the hypothesis is needed. -/
+theorem strict_terminal_table_is_last_frame (ops : List WOp) (h : StrictFrames World.init ops) :
+    runDrop Term.empty (World.trace World.init ops) = (World.init.run ops).term ∧
+    ∀ k, (runDrop Term.empty (World.trace World.init ops)).places k = tableOf (World.init.run ops).ps.last k := by
+  obtain ⟨h1, h2⟩ := strict_run ops World.init ⟨fun _ => rfl, keyFun_nil⟩ h
+  refine ⟨h1, fun k => ?_⟩
+  rw [show runDrop Term.empty (World.trace World.init ops) = runDrop World.init.term (World.trace World.init ops) from rfl, h1]
+  exact h2.1 k
+
+open VaxisModel.Lemmas.KittyStrict in
+/-- Non-vacuity: an image resized to another cell size between frames and drawn again in place, next to a kept
+    placement of another image, meets `StrictFrames`; the history of `retransmission_drops_kept_placements` does not. -/
+example :
+    let a : Placement := ⟨1, 2, 3, 4, 4⟩
+    let a' : Placement := ⟨1, 2, 3, 2, 2⟩
+    let b : Placement := ⟨2, 7, 7, 1, 1⟩
+    StrictFrames World.init [.resize 1 true, .resize 2 true, .draw a, .draw b, .render, .clear, .resize 1 true, .draw a', .draw b, .render] := by
+  simp only [StrictFrames, OKFrame, KeyFun]
+  decide
+
+open VaxisModel.Lemmas.KittyStrict in
+/-- …and the history of `retransmission_drops_kept_placements` (a `Resize` that keeps the cell size, one placement kept,
+    one moved) is exactly one that does not meet it. -/
+example :
+    let a1 : Placement := ⟨1, 1, 1, 2, 2⟩
+    let a2 : Placement := ⟨1, 5, 5, 2, 2⟩
+    let a3 : Placement := ⟨1, 6, 6, 2, 2⟩
+    ¬ StrictFrames World.init [.resize 1 true, .draw a1, .draw a2, .render, .resize 1 true, .clear, .draw a1, .draw a3, .render] := by
+  simp only [StrictFrames, OKFrame, KeyFun]
+  decide
 
 /-! ## Image data -/
 
